@@ -1,0 +1,120 @@
+//! Verification hook (add-only, compiled only with `--cfg loom --cfg penguin_rs_verif` in the
+//! crate's own test target): runs the writer's credit poll against `acknowledge` /
+//! `disallow_write` on loom threads and records the set of final outcomes of each program.
+//
+// SPDX-License-Identifier: Apache-2.0 OR GPL-3.0-or-later
+
+use crate::loom::{Arc, AtomicBool, AtomicU32, AtomicWaker, Ordering};
+use crate::{EstablishedStreamData, MuxStream};
+use bytes::Bytes;
+use core::task::{Context, Poll};
+use std::collections::BTreeSet;
+use std::string::String;
+use std::sync::Mutex as StdMutex;
+use std::vec::Vec;
+use std::{format, println};
+use tokio::sync::mpsc;
+
+static OUTCOMES: StdMutex<BTreeSet<String>> = StdMutex::new(BTreeSet::new());
+
+struct CountWaker(loom::sync::atomic::AtomicUsize);
+impl std::task::Wake for CountWaker {
+    fn wake(self: std::sync::Arc<Self>) {
+        self.0.fetch_add(1, Ordering::SeqCst);
+    }
+    fn wake_by_ref(self: &std::sync::Arc<Self>) {
+        self.0.fetch_add(1, Ordering::SeqCst);
+    }
+}
+
+fn parts(credit: u32) -> (MuxStream, EstablishedStreamData) {
+    let (_rx_frame_tx, rx_frame_rx) = mpsc::channel(4);
+    let (tx_msg_tx, _tx_msg_rx) = mpsc::unbounded_channel();
+    let (dropped_flows_tx, _d) = mpsc::unbounded_channel();
+    let finish_sent = Arc::new(AtomicBool::new(false));
+    let psh_send_remaining = Arc::new(AtomicU32::new(credit));
+    let writer_waker = Arc::new(AtomicWaker::new());
+    let data = EstablishedStreamData {
+        sender: None,
+        finish_sent: finish_sent.clone(),
+        psh_send_remaining: psh_send_remaining.clone(),
+        writer_waker: writer_waker.clone(),
+    };
+    let stream = MuxStream {
+        rx_frame_rx,
+        flow_id: 1,
+        dest_host: Bytes::new(),
+        dest_port: 0,
+        finish_sent,
+        psh_send_remaining,
+        psh_recvd_since: 0,
+        writer_waker,
+        buf: Bytes::new(),
+        tx_msg_tx,
+        dropped_flows_tx,
+        rwnd_threshold: 1,
+    };
+    (stream, data)
+}
+
+fn res(p: Poll<Option<()>>) -> &'static str {
+    match p {
+        Poll::Ready(Some(())) => "R",
+        Poll::Ready(None) => "C",
+        Poll::Pending => "P",
+    }
+}
+
+/// program: writer polls `polls` times in its thread; optionally an acknowledge of `n`
+/// and/or a close in other threads.  Outcome: poll results, final credit, final closed flag,
+/// wake-ups delivered to the waker registered by the writer.
+fn program(name: &str, credit: u32, polls: usize, ack: Option<u32>, close: bool) {
+    OUTCOMES.lock().unwrap().clear();
+    loom::model(move || {
+        let (stream, data) = parts(credit);
+        let data = Arc::new(data);
+        let wk = std::sync::Arc::new(CountWaker(loom::sync::atomic::AtomicUsize::new(0)));
+        let waker = std::task::Waker::from(wk.clone());
+        let mut handles = Vec::new();
+        if let Some(n) = ack {
+            let d = data.clone();
+            handles.push(loom::thread::spawn(move || d.acknowledge(n)));
+        }
+        if close {
+            let d = data.clone();
+            handles.push(loom::thread::spawn(move || {
+                d.disallow_write();
+            }));
+        }
+        let cx = Context::from_waker(&waker);
+        let mut rs = String::new();
+        for _ in 0..polls {
+            rs.push_str(res(stream.poll_obtain_write_permission(&cx)));
+        }
+        for h in handles {
+            h.join().unwrap();
+        }
+        let credit = stream.psh_send_remaining.load(Ordering::SeqCst);
+        let fin = stream.finish_sent.load(Ordering::SeqCst);
+        let wakes = wk.0.load(Ordering::SeqCst);
+        OUTCOMES.lock().unwrap().insert(format!("{rs} {credit} {} {wakes}", u8::from(fin)));
+        // the stream's Drop only sends on a channel
+        drop(stream);
+    });
+    let set = OUTCOMES.lock().unwrap();
+    let v: Vec<&String> = set.iter().collect();
+    println!("VERIF-LOOM {name} credit={credit} polls={polls} ack={} close={} => {v:?}", ack.unwrap_or(0), u8::from(close));
+}
+
+#[test]
+fn verif_loom_outcomes() {
+    for credit in [0u32, 1, 2] {
+        for n in [1u32, 2] {
+            program("W|K", credit, 1, Some(n), false);
+            program("WW|K", credit, 2, Some(n), false);
+            program("W|K|D", credit, 1, Some(n), true);
+        }
+        program("W|D", credit, 1, None, true);
+        program("WW|D", credit, 2, None, true);
+    }
+}
